@@ -48,6 +48,7 @@ func runC16(c *Ctx) {
 	c07ASTImmutable(c)
 	layoutAgreement(c)
 	nilDerefOnNilEdge(c, "nil-deref-on-nil-edge", pkgIntrosp)
+	c16Round2(c)
 	c.R.Rule("gate", "in every materialised package: calls of introspection.Wrap* and reads of the embedded SDL table outside init are edge-dominated by DisableIntrospection == false", 2*len(c.Gen))
 	for _, g := range c.Gen {
 		n := 0
